@@ -4,7 +4,8 @@ from .. import common, gen, mergecorr, oracles, t2
 from . import base
 from .C04 import set_plain, del_plain, wrap_at
 
-THEOREMS = ['C16_append', 'C16_append_missing', 'C16_append_nonlist', 'C16_extend_fallback', 'C16_prev', 'C16_detach_frame']
+THEOREMS = ['C16_append', 'C16_append_missing', 'C16_append_nonlist', 'C16_extend_fallback', 'C16_prev', 'C16_detach_frame', 'C16_append_end_to_end',
+            'C16_append_result_at_path', 'C16_append_every_other_path_kept']
 PLAIN = gen.PROFILES['plain']
 
 
@@ -164,6 +165,44 @@ def known_sig(kf, failing):
     return False
 
 
+def spec_app_corr(rep, scen):
+    """the reference of C16_append_end_to_end against the implementation: `!append` at a path through mappings of a tag-free base that holds a
+    list there.  Coq evaluates Proofs.AppendE2E.app_at on the plain data of the base and compares it (content AND key order) with what
+    Builder.build returned; a disagreement is a concrete failing input."""
+    from .. import ser
+    items, shown = [], []
+    for c in scen:
+        if c['kind'] != 'append' or not c.get('path') or any(not isinstance(k, str) for k in c['path']):
+            continue
+        bp = oracles.doc_plain(c['base'])
+        tgt = oracles.lookup(bp, tuple(c['path']))
+        if not isinstance(tgt, list):
+            continue
+        texts = [gen.render(c['base']), gen.render(c['newer'])]
+        kind, root = oracles.build(texts)
+        intern = ser.Interner()
+        try:
+            got = f'(Some {ser.plain_term(base.to_plain(root), intern)})' if kind == 'ok' else 'None'
+            els = ser.coq_list(ser.plain_term(oracles.doc_plain(e), intern) for e in c['els'])
+            items.append(f'({ser.plain_term(bp, intern)}, {ser.path_term(c["path"], intern)}, {els}, {got})')
+        except ValueError:
+            continue
+        shown.append(c)
+    hdr = 'From AY Require Import Model.Eq Spec.Update Proofs.AppendE2E.\nOpen Scope Z_scope.\n'
+    chk = ('fun c : plain * path * list plain * option plain => match app_at (fst (fst (fst c))) (snd (fst (fst c))) (snd (fst c)), snd c with '
+           'Some X, Some x => plain_eqb X x | Some _, None => false | None, _ => false end')
+    bad, errors_, wall, cmd = common.run_case_files('c16a', hdr, items, chk, shard=200)
+    rep.checker_cmds.append(cmd)
+    rep.count('append spec: cases (list reached through mappings of a tag-free base)', len(items))
+    rep.oblige(f'T3 correspondence Proofs.AppendE2E.app_at (the reference of C16_append_end_to_end) = Builder.build on {len(items)} append scenarios (content and key order)',
+               not bad and not errors_ and len(items) > 0, (f'{len(bad)} disagreements' if bad else '') + (errors_[0]['log'][-400:] if errors_ else ''))
+    for i in bad[:3]:
+        c = shown[i]
+        rep.violation('the build differs from "previous list followed by the appended elements, every other path kept" (app_at)',
+                      dict(oracle='app_at spec', input=dict(kind=c['kind'], base=gen.render(c['base']), newer=gen.render(c['newer']), path=c.get('path'), els=[gen.render(e) for e in c.get('els', [])])))
+    rep.extra.setdefault('correspondence', []).append(dict(label='app_at spec', cases=len(items), disagreements=len(bad), coq_wall_s=round(wall, 1)))
+
+
 def run(rep, tier, rng):
     rep.rule = ('(a) merge histories using !append/!extend/!prev/!clear (correspondence); (b) structured scenarios on a random base document: operator at an existing / missing / '
                 'non-list target at any depth (through mappings and list indices), empty and nested appended lists, !prev of any subtree, two operators in one document. '
@@ -181,6 +220,7 @@ def run(rep, tier, rng):
         rep.count('scenario ' + c['kind'])
         rep.case(gen.render(c['base']) + gen.render(c['newer']), len(c.get('path', c.get('target', []))) >= 2 or bool(c.get('els')),
                  sample=dict(kind=c['kind'], base=gen.render(c['base']), newer=gen.render(c['newer'])))
+    spec_app_corr(rep, scen)
     base.run_oracle(rep, 'C16', 'operator scenarios vs reference', scen, judge, known_sig=known_sig,
                     show=lambda c: dict(kind=c['kind'], base=gen.render(c['base']), newer=gen.render(c['newer']), path=c.get('path'), target=c.get('target'),
                                         els=[gen.render(e) for e in c.get('els', [])], plain=(gen.render(c['plain']) if c.get('plain') else None)))
